@@ -72,7 +72,7 @@ def programs(draw, kinds=("mutex",), max_actors=5, max_ops=10, max_mutex=3, max_
         if "barrier" in kinds:
             choices += ["barrier"]
         if "random" in kinds:
-            choices += ["mc_random"]
+            choices += ["mc_random"] * max(1, sum(1 for k in kinds if k == "random") ** 3)     # ("random" repeated in kinds = weight)
     actors = []
     role = {}
     for ai in range(nact):
@@ -176,7 +176,12 @@ def programs(draw, kinds=("mutex",), max_actors=5, max_ops=10, max_mutex=3, max_
                 size = 0 if mc else draw(st.sampled_from([0, 1, 512, 4096, 100000]))
                 ops.append(["put", mb, size, {}] if k == "put" else ["get", mb, {}])
             elif k == "mc_random":
-                ops.append(["mc_random", 0, draw(st.integers(1, 2))])
+                hi = draw(st.integers(1, 2))
+                ops.append(["mc_random", 0, hi])
+                if "assert" in kinds and draw(st.integers(0, 1)) == 0:
+                    # an assertion on the value just drawn: fails for every value but one (failures that depend on WHICH choice of a
+                    # multi-valued transition was taken, also on its default choice 0 after a non-default one earlier in the path)
+                    ops.append(["mc_assert", len(ops) - 1, draw(st.integers(0, hi))])
             elif k == "exec":
                 ops.append(["exec", draw(st.sampled_from([0.0, 256.0, 512.0, 1024.0, 1536.0, 3000.0])), {}])
             elif k in ("put_async", "get_async"):
@@ -216,17 +221,23 @@ def programs(draw, kinds=("mutex",), max_actors=5, max_ops=10, max_mutex=3, max_
                 role[(ti, mb)] = need
                 actors[ti]["ops"].append(["get", mb, {}] if need == "get" else ["put", mb, 0, {}])
         for b in range(len(bars)):
+            # every caller of the barrier waits `rounds` times on it and the barrier has the size of its callers: all groups complete,
+            # and with rounds > 1 the barrier is REUSED (an actor released from one round may arrive for the next one before the
+            # others left: the interleavings where per-group state must not leak)
+            rounds = draw(st.sampled_from([1, 1, 2, 2, 3]))
             seen = 0
             for a in actors:
-                first = True
+                mine = 0
                 keep = []
                 for o in a["ops"]:
                     if o[0] == "barrier" and o[1] == b:
-                        if not first:
+                        if mine >= rounds:
                             continue
-                        first = False
-                        seen += 1
+                        mine += 1
                     keep.append(o)
+                if mine:
+                    seen += 1
+                    keep += [["barrier", b]] * (rounds - mine)
                 a["ops"] = keep
             objects["barrier"][b] = max(1, seen)
         for a in actors:
